@@ -52,6 +52,7 @@ JoinLemma ==
   (pc = "done" /\ WellFormed(s)) =>
      \A k \in 1..Len(s) : s[k] = SP => DW(s) <= DW(SubSeq(s, 1, k - 1)) + 1 + DW(SubSeq(s, k + 1, Len(s)))
 CharLemma == \A c \in Alphabet : W(c) <= Utf8Len(c)
-Terminates == <>(pc = "done" \/ pc = "type")
+\* once a call has begun it returns (checked under weak fairness of the step actions: the algorithms terminate)
+Terminates == (pc # "type") ~> (pc = "done")
 Emit == pc = "done" => PrintT(<<"REPLAY", ToJson([k |-> "dw", s |-> s])>>)
 =============================================================================
